@@ -119,7 +119,7 @@ fn load_known(id: &str) -> Vec<KnownFinding> {
             if props.contains(&id) {
                 out.push(KnownFinding {
                     property: id.to_string(),
-                    signature: e.get("signature").and_then(|x| x.as_str()).unwrap_or("").to_string(),
+                    signature: e.get("signature_suffix").and_then(|x| x.as_str()).unwrap_or("\u{0}").to_string(),
                     what: e.get("what").and_then(|x| x.as_str()).unwrap_or("").to_string(),
                 });
             }
@@ -182,7 +182,7 @@ impl Ctx {
         self.violations.lock().unwrap().len()
     }
     pub fn is_known(&self, sig: &str) -> bool {
-        !self.strict && self.known.iter().any(|k| k.signature == sig)
+        !self.strict && self.known.iter().any(|k| sig.ends_with(&k.signature))
     }
 
     /// Account one executed case.
@@ -220,7 +220,8 @@ impl Ctx {
     /// (the search goes on), false when it is a violation.
     pub fn known_hit(&self, f: &Failure) -> bool {
         if self.is_known(&f.sig) {
-            *self.known_hits.lock().unwrap().entry(f.sig.clone()).or_insert(0) += 1;
+            let key = self.known.iter().find(|k| f.sig.ends_with(&k.signature)).map(|k| k.signature.clone()).unwrap_or_default();
+            *self.known_hits.lock().unwrap().entry(key).or_insert(0) += 1;
             true
         } else {
             false
